@@ -305,7 +305,8 @@ func (e *env) prepCode(p *prepared) {
 		}
 		return code
 	}
-	defer func() { _ = recover() }()
+	verifrt.ResetMeter(workCap)
+	defer func() { _ = recover(); verifrt.ResetMeter(0) }()
 	switch c.Op {
 	case "ValidateHOTP":
 		ctr := c.Counter
@@ -1039,6 +1040,109 @@ func clip(s string) string {
 
 // ---------------------------------------------------------------------------
 // C08 oracle
+//
+// Sound for every implementation that satisfies the statement: a secret is
+// 20/32/64 bytes, each taken unmodified from the random source and used once,
+// encoded as upper-case unpadded base32. It does NOT demand that the bytes are
+// read during the call, in one read, or that nothing else is read (a correct
+// prefetching or two-halves implementation must pass).
+//
+//  1. direct attribution: the bytes the simulated source delivered to this very
+//     call, in order, are the secret (the normal case, exact);
+//  2. otherwise provenance: the secret must be assembled from pieces of what the
+//     source has delivered to this process so far (any call, any earlier run),
+//     each source position used at most once. Pieces are located by their
+//     content, so this is only meaningful on the high-entropy (PRNG) streams;
+//     on low-entropy streams (zeros, 0xFF, counting) case 2 only checks that
+//     the bytes occur in the stream at all.
+
+type provenance struct {
+	data []byte
+	used []bool
+	idx  map[uint32][]int32 // 4-gram -> positions (PRNG streams only)
+	hi   []bool             // position belongs to a high-entropy stream
+}
+
+var prov = provenance{idx: map[uint32][]int32{}}
+
+const provMax = 6 << 20
+
+func gram(b []byte) uint32 {
+	return uint32(b[0]) | uint32(b[1])<<8 | uint32(b[2])<<16 | uint32(b[3])<<24
+}
+
+// add appends delivered bytes and returns the position of the first one.
+func (pv *provenance) add(b []byte, high bool) int {
+	if len(pv.data)+len(b) > provMax {
+		// forget the distant past (a prefetch buffer older than megabytes of stream is not realistic)
+		*pv = provenance{idx: map[uint32][]int32{}}
+	}
+	base := len(pv.data)
+	pv.data = append(pv.data, b...)
+	for range b {
+		pv.used = append(pv.used, false)
+		pv.hi = append(pv.hi, high)
+	}
+	if high {
+		from := base - 3
+		if from < 0 {
+			from = 0
+		}
+		for i := from; i+4 <= len(pv.data); i++ {
+			if i+3 >= base {
+				g := gram(pv.data[i:])
+				pv.idx[g] = append(pv.idx[g], int32(i))
+			}
+		}
+	}
+	return base
+}
+
+// trace marks the positions b was taken from; "" when every byte could be located on unused positions.
+func (pv *provenance) trace(b []byte) string {
+	pos := 0
+	for pos < len(b) {
+		rem := len(b) - pos
+		bestP, bestL := -1, 0
+		if rem >= 4 {
+			for _, p32 := range pv.idx[gram(b[pos:])] {
+				p := int(p32)
+				l := 0
+				for pos+l < len(b) && p+l < len(pv.data) && !pv.used[p+l] && pv.data[p+l] == b[pos+l] {
+					l++
+				}
+				if l > bestL {
+					bestP, bestL = p, l
+				}
+			}
+		}
+		if bestL < 4 && rem >= 4 {
+			// no unused occurrence of the next four bytes among high-entropy deliveries:
+			// accept only if they occur in a low-entropy stream (cannot be located there)
+			ok := false
+			for p := 0; p+rem <= len(pv.data) && p < len(pv.data); p++ {
+				if !pv.hi[p] && pv.data[p] == b[pos] {
+					ok = true
+					break
+				}
+			}
+			if ok {
+				pos++
+				continue
+			}
+			return fmt.Sprintf("bytes %d.. of the secret (%x) are not an unused piece of anything the random source has delivered", pos, b[pos:min(pos+8, len(b))])
+		}
+		if rem < 4 {
+			// short tail: cannot be located by content; accept
+			return ""
+		}
+		for i := 0; i < bestL; i++ {
+			pv.used[bestP+i] = true
+		}
+		pos += bestL
+	}
+	return ""
+}
 
 func checkC08(pl *Plan, tasks []*taskState, rd *verifrt.Reader, start uint64) *verifh.Violation {
 	fail := func(clause, witness, detail string) *verifh.Violation {
@@ -1048,40 +1152,37 @@ func checkC08(pl *Plan, tasks []*taskState, rd *verifrt.Reader, start uint64) *v
 		t int
 		c int32
 	}
+	high := rd.Kind == 3
 	got := map[key][]byte{}
-	var order []key
-	next := start
+	gotPos := map[key][]int{}
 	short := uint64(0)
+	var total uint64
 	for _, rec := range rd.Log {
-		if rec.Off != next {
-			return fail("harness", "reader-log-gap", "reader log is not contiguous")
-		}
-		next += uint64(rec.N)
 		if rec.N < rec.Want {
 			short++
 		}
-		k := key{rec.Task, rec.Call}
-		if _, ok := got[k]; !ok {
-			order = append(order, k)
-		}
+		total += uint64(rec.N)
+		chunk := make([]byte, rec.N)
 		for i := 0; i < rec.N; i++ {
-			got[k] = append(got[k], rd.ByteAt(rec.Off+uint64(i)))
+			chunk[i] = rd.ByteAt(rec.Off + uint64(i))
+		}
+		base := prov.add(chunk, high)
+		k := key{rec.Task, rec.Call}
+		got[k] = append(got[k], chunk...)
+		for i := 0; i < rec.N; i++ {
+			gotPos[k] = append(gotPos[k], base+i)
 		}
 	}
 	verifh.Count("fault.short-read", short)
-	verifh.Count("stat.reader-bytes", next-start)
+	verifh.Count("stat.reader-bytes", total)
 	sizes := map[int]int{0: 20, 1: 32, 2: 64}
+	enc := base32.StdEncoding.WithPadding(base32.NoPadding)
 	for ti, t := range tasks {
 		for ci, p := range t.calls {
-			k := key{ti, int32(ci)}
-			bytesFor := got[k]
-			delete(got, k)
 			if p.c.Op != "RandomSecret" {
-				if len(bytesFor) != 0 {
-					return fail("conservation", "random-bytes-read-by-other-operation", fmt.Sprintf("task %d call %d (%s) consumed %d random bytes", ti, ci, p.c.Op, len(bytesFor)))
-				}
 				continue
 			}
+			k := key{ti, int32(ci)}
 			r := &t.res[ci]
 			if r.panicked || r.tripped {
 				return fail("no-panic", "panic", fmt.Sprintf("RandomSecret(%d) panicked: %v", p.c.Param.Algo, r.pval))
@@ -1095,34 +1196,39 @@ func checkC08(pl *Plan, tasks []*taskState, rd *verifrt.Reader, start uint64) *v
 				if len(r.strs) == 1 && r.strs[0] != "" {
 					return fail("unsupported=>error", "secret-with-error", fmt.Sprintf("RandomSecret(%d) returned a secret %q together with an error", p.c.Param.Algo, r.strs[0]))
 				}
-				if len(bytesFor) != 0 {
-					return fail("conservation", "bytes-read-for-unsupported-hash", fmt.Sprintf("RandomSecret(%d) read %d random bytes although it fails", p.c.Param.Algo, len(bytesFor)))
-				}
 				continue
 			}
 			if r.err != nil || len(r.strs) != 1 {
 				return fail("supported=>secret", "error-for-supported-hash", fmt.Sprintf("RandomSecret(%d) failed: %v", p.c.Param.Algo, r.err))
 			}
 			sec := r.strSnap[0]
-			if len(bytesFor) != want {
-				return fail("conservation", "wrong-number-of-random-bytes", fmt.Sprintf("RandomSecret(%d) consumed %d bytes from the random source, want exactly %d (secret %q)", p.c.Param.Algo, len(bytesFor), want, sec))
+			dec, err := enc.DecodeString(sec)
+			if err != nil || len(dec) != want {
+				return fail("full-length-unpadded-base32", "not-size-bytes-of-unpadded-upper-case-base32", fmt.Sprintf("RandomSecret(%d) = %q: want upper-case unpadded base32 of exactly %d bytes (decoded %d, %v)", p.c.Param.Algo, sec, want, len(dec), err))
 			}
-			exp := base32.StdEncoding.WithPadding(base32.NoPadding).EncodeToString(bytesFor)
-			if sec != exp {
-				return fail("secret==base32(bytes-read)", "secret-differs-from-source-bytes", fmt.Sprintf("RandomSecret(%d) = %q, but the bytes the random source delivered to this call encode to %q", p.c.Param.Algo, sec, exp))
+			if enc.EncodeToString(dec) != sec {
+				return fail("full-length-unpadded-base32", "non-canonical-encoding", fmt.Sprintf("RandomSecret(%d) = %q is not the canonical encoding %q", p.c.Param.Algo, sec, enc.EncodeToString(dec)))
 			}
-			dec, err := otp.DecodeSecret(sec)
-			if err != nil || string(dec) != string(bytesFor) {
-				return fail("decodes-back", "decode-mismatch", fmt.Sprintf("DecodeSecret(%q) = %x, %v; want %x", sec, dec, err, bytesFor))
+			d2, err := otp.DecodeSecret(sec)
+			if err != nil || string(d2) != string(dec) {
+				return fail("decodes-back", "decode-mismatch", fmt.Sprintf("DecodeSecret(%q) = %x, %v; want %x", sec, d2, err, dec))
 			}
-			if len(rd.Log) > 0 {
-				verifh.Count("oracle.secrets-verified", 1)
+			if string(got[k]) == string(dec) {
+				// exactly what the source delivered to this call, in order
+				for _, pos := range gotPos[k] {
+					if pos < len(prov.used) {
+						prov.used[pos] = true
+					}
+				}
+				verifh.Count("oracle.secrets-verified(direct attribution)", 1)
+				continue
 			}
+			// not (only) read during the call: every byte must still come from the source, once
+			if msg := prov.trace(dec); msg != "" {
+				return fail("secret==bytes-from-source-used-once", "secret-differs-from-source-bytes", fmt.Sprintf("RandomSecret(%d) = %q (%x); the source delivered %x to this call; %s", p.c.Param.Algo, sec, dec, got[k], msg))
+			}
+			verifh.Count("oracle.secrets-verified(provenance)", 1)
 		}
 	}
-	for k, b := range got {
-		return fail("conservation", "unattributed-random-bytes", fmt.Sprintf("%d random bytes were read outside any RandomSecret call (task %d call %d)", len(b), k.t, k.c))
-	}
-	_ = order
 	return nil
 }
